@@ -10,6 +10,34 @@ COMMON_ASSUMPTIONS = [
 ]
 
 PROPS = {}
+
+PROPS['C20'] = {
+    'modules': ['c20', ('c10', ['R10.4'])],
+    'level': 'other',
+    'quick_configs': ['default'],
+    'thorough_configs': ['default', 'noalloc', 'nounicode', 'nostd'],
+    'controls': [],
+    'floors': {'default': {'W1': 60, 'W1.bytes': 1, 'W2': 1, 'R10.4.hint': 1}},
+    'rule_text': 'one obligation per overflow/division/shift site of the sector/cluster/offset arithmetic '
+                 '(boot_sector.rs geometry helpers, fs.rs offset_from_*/DiskSlice, table.rs get/set/find_free/alloc): '
+                 'discharged by the interval analysis under validated-BPB invariants or a reasoned table entry; the '
+                 'sector-to-byte conversion multiplies in 64 bits; the allocation scan has a second leg over [2, start) '
+                 'before reporting out-of-space; the hint is clamped below total_clusters + 2 (R10.4)',
+    'explanation': 'Large-volume addressing as structural rules on MIR: (W1) every checked-arithmetic and division site in '
+                   'the offset-computing functions is proved in range by interval abstract interpretation seeded with the '
+                   'field invariants the BPB validators establish (or discharged by a table entry with its anchor checked '
+                   'in the code); left shifts of <= 32-bit values whose result is later widened must not be able to drop '
+                   'bits (Rust does not check shifts for lost high bits); bytes_from_sectors widens to u64 before '
+                   'shifting/multiplying; (W2) alloc_cluster calls find_free a second time with range [2, start) on the '
+                   'NotEnoughSpace arm when start > 2; (W3 = R10.4) next_free hints are clamped. That the resulting '
+                   'offsets are the correct ones on a 2 TiB device is a value property and is not decided.',
+    'claim': 'No 32-bit overflow or truncating shift in the offset arithmetic under validated geometry; wrap-around leg '
+             'and hint clamp exist on all paths. Correctness of the offsets themselves is not decided.',
+    'level_note': 'the scope of offset-computing functions is a regex table in rules/allpanics.py (SCOPES["C20"])',
+    'technique': 'static analysis: interval abstract interpretation over MIR + must-pass-through',
+    'assumptions': COMMON_ASSUMPTIONS,
+}
+
 NOT_APPLICABLE = {}
 
 PROPS['C09'] = {
